@@ -234,7 +234,7 @@ def gen_misc(thorough: bool) -> Iterator[tuple[str, list[list[Any]]]]:
     yield "cross-routine", [[Jump("l")], [Forever([P("a"), Ctl("return"), Label("l"), Ctl("break_loop")])]]
     yield "cross-routine", [[If(False, [Hdr(1)], [Jump("l")]), P("z")], [If(False, [Hdr(2)], [P("a"), Ctl("hold"), Label("l"), P("b")])]]
     yield "cross-routine", [[Jump("l")], [P("a"), Ctl("end"), Label("l"), Jump("e"), Label("e")]]
-    yield "cross-routine", [[Ctl("end")], [], [P("a"), Jump("t"), Label("t")]]
+    yield "cross-routine", [[Ctl("end")], [P("m")], [P("a"), Jump("t"), Label("t")]]
     # several routines, empty routines
     yield "routines", [[P("a")], [P("b"), Ctl("end")], [P("c"), Ctl("hold")]]
     yield "routines", [[P("a"), If(False, [Hdr(1)], [P("b")])], [If(True, [Hdr(2)], [P("c")]), P("d")]]
